@@ -212,6 +212,28 @@ def gen_gene(r, name="GEN", pseudogene=None, n_exons=None, n_alleles=None, fusio
     return yaml.safe_dump(doc, sort_keys=False, default_flow_style=None)
 
 
+def with_delins(r, y):
+    """the same database plus a function-altering deletion-insertion (`delXinsY`, as CYP2A6*27 has one): on an allele of
+    its own and on one existing allele"""
+    doc = yaml.safe_load(y)
+    seq = doc["reference"]["seq"]
+    L = len(seq)
+    used = {e[0] + k for a in doc["alleles"].values() for e in a["mutations"] if isinstance(e[0], int) for k in range(-3, 5)}
+    lo = L // 2 + 2 if len(doc["structure"]["genes"]) > 1 else 3
+    cand = [p for p in range(lo, L - 8) if all(p + k not in used for k in range(0, 4))]
+    if not cand:
+        return y
+    p = r.choice(cand)
+    w = r.randint(1, 3)
+    op = f"del{seq[p - 1:p - 1 + w]}ins{''.join(r.choice('ACGT') for _ in range(r.randint(1, 3)))}"
+    ent = [p, op, "-", "functional"]
+    doc["alleles"][f"{doc['name']}*66.001"] = {"mutations": [list(ent)]}
+    plain = [an for an, al in doc["alleles"].items() if al["mutations"] and all(isinstance(e[0], int) for e in al["mutations"]) and not an.endswith("*66.001")]
+    if plain and r.random() < 0.6:
+        doc["alleles"][r.choice(plain)]["mutations"].append(list(ent))
+    return yaml.safe_dump(doc, sort_keys=False, default_flow_style=None)
+
+
 def load(yml_text, genome="hg19", name="GEN"):
     from aldy.gene import Gene
     return Gene(None, name=name, yml=yml_text, genome=genome)
